@@ -169,6 +169,15 @@ def towers(depth):
     yield 'brackets', '[' * d + ']' * d + '\n'
     yield 'parens', '[a](' + '(' * d + ')' * d + ')\n'
 
+    def alt(k, P, first):
+        return [first + 'x\n'] if k == 0 else [first + '-\n', '\n'] + alt(k - 1, P + '   ', P + '1. ')
+    yield 'empty-item-then-other-list', ''.join(alt(min(d, 20), '', ''))
+
+    def alt2(k, P):
+        return [P + 'x\n'] if k == 0 else [P + '- a\n', '\n'] + alt2(k - 1, P + '  ') + [P + '1. b\n']
+    yield 'list-then-other-list-nested', ''.join(alt2(min(d, 40), ''))
+    yield 'quote-list-alternating', ''.join('> ' * i + '- ' + 'a\n' for i in range(min(d, 60)))
+
 
 ALPHABETS = ['a \n*_', 'a \n>-', 'a \n`[', 'a\n[]()', 'a \n#=-', 'a\n<>&/', 'a \n\\*`', 'a\n|-: ', 'a \n~!1.', 'a\n "\'(', 'a\n\t-+ ', 'a\n*-_ ']
 
@@ -191,11 +200,23 @@ def input_stream(ck):
                 '<http://a', 'a  ', '[[a|b', '$a', '{{a}', '~~a', '1.', '-', '#']:
         for pre in ('', 'x ', '# ', '> ', '- ', '| a |\n|---|\n| '):
             yield 'unfinished-construct', pre + tpl, len(CONFIGS)
+    # (ii-b') text that is special for Python string formatting / regex substitution, in every attribute-like position
+    for pay in ['{inner}', '{target}', '{}', '{0}', '{', '}', '{a, b}', '%s', '%(x)s', '%', '{{', '\\\\1', '\\\\g<0>', '$1', '{title}', '{tag}', '{level}', '{attr}']:
+        for tpl in ['[x](/u "%s")', '![x](/u "%s")', '[x](%s)', '![%s](/i)', '```%s\ncode\n```', '[r]: /u "%s"\n\n[r]', '<http://x/%s>', '# %s', '`%s`', '| %s |\n|---|\n| %s |',
+                    '[%s][r]\n\n[r]: /u', '%s', '> %s', '- %s', '[[%s|%s]]', '$%s$', '{{%s}}']:
+            yield 'format-special', tpl.replace('%s', pay), len(CONFIGS)
     # (ii-c) long runs that make a pattern backtrack
     for n in ([500] if quick else [200, 500, 1000]):
         for t in ['a [[' + ' ' * n + 'a|' + ' ' * n + 'b', '[[' + 'a ' * n + '|', '<a ' + 'b ' * n, '[a](' + ' ' * n + 'b', '`' * n + 'a', '*' * n + 'a' + '*' * n,
                   '[' * n + 'a' + ']' * n, '<' * n, '&' + 'a' * n, '\\' * n + '*', '| ' * n + '\n' + '|-' * n, '~' * n + 'a' + '~' * n, '$' * n + 'a', '{{a ' + ' ' * n + '}']:
             yield 'long-run', t, len(CONFIGS)
+    # (ii-d) runs of one significant character followed / preceded by something else, in every line position: a pattern with
+    # nested quantifiers only shows when it has to reject the line
+    for n in ([32] if quick else [26, 32, 200]):
+        for c in '=-*_`~#>+[]()<&|:!. \t\\"\'1':
+            run = c * n
+            for t in ['a\n' + run + 'x', run + 'x', 'x' + run, 'a\n' + run + ' x', '- ' + run + 'x', '> a\n' + run + 'x', run + '\n' + run + 'x', 'a ' + run + ' b', '| a |\n|' + run + 'x']:
+                yield 'char-run', t, 2
     # (iii) exhaustive small alphabets
     L = 5 if quick else 7
     for al in ALPHABETS:
